@@ -1,4 +1,5 @@
 from rules import shared as S
+from rules import late as L
 
 DOC = {'explanation': 'C10 structural clauses (see DESIGN.md section 5)', 'decided': [], 'not_decided': []}
 
@@ -25,3 +26,5 @@ def rules(ctx):
     S.tree_root_update_rules(ctx)
     S.round5_rules(ctx)
     S.builder_fill_rules(ctx)
+    L.inplace_edit_rules(ctx)
+    L.get_mut_cow_rules(ctx)
